@@ -27,6 +27,7 @@ func rulesC10(w *World, r *Report) {
 	w.rulePairOctets(r, "C10.R2 encoder/decoder octet agreement", "date")
 	w.ruleWrapperForwards(r, "C10.R2 the date read wrapper forwards the decoder", "date")
 	w.ruleDateUnits(r, "C10.R2 encoder getter and decoder constructor agree on the unit")
+	w.ruleDecoderInverts(r, "C10.R6 the decoder rebuilds the instant's count bit for bit", "date")
 	w.ruleDateArith(r, "C10.R3 no overflow on the declared domain")
 	w.ruleDateStructPath(r, "C10.R5 time.Time recognised inside the struct path")
 }
